@@ -58,16 +58,19 @@ MapTags(to)   == IF to.tagmaplist THEN <<<<"ktg", "vtg">>, <<"ktg2", "vtg2">>>> 
 Fallback(to)  == IF to.fb = <<>> THEN "crowsetta" ELSE to.fb[1]
 One(k, to)    == <<<<k, to.label>>>>                    \* a single tag, the label as value
 
-\* Reading D: the Notes of the docstring, steps 1-8 executed in order.  Step 6 ("if key is provided, use it")
-\* after a hitting key_mapping is read both ways (the mapped key stays / the explicit key is used).
+\* Reading D: the Notes of the docstring, steps 1-8 in order.  Step 3 ("label found in term_mapping: USE the corresponding
+\* term") is a decision: a reading in which step 4 then returns the tag_mapping tags does not use that term, so a
+\* term_mapping hit comes before a tag_mapping hit in this reading too (as in the summary).  An EXPLICIT term is only
+\* consulted in steps 6-8, after tag_mapping.  Step 6 ("if key is provided, use it") after a hitting key_mapping is read
+\* both ways (the mapped key stays / the explicit key is used).
 DocTags(to) ==
     IF LabelEmpty(to) THEN {<<>>}
     ELSE IF to.fn = "h" THEN {FnTags(to)}
-    ELSE LET term1 == IF to.termmap = "h" THEN <<"TM">> ELSE to.term
-         IN  IF to.tagmap = "h" THEN {MapTags(to)}
-             ELSE LET keys == IF to.keymap = "h" THEN {"KM"} \cup Range(to.key)
-                              ELSE IF to.key # <<>> THEN {to.key[1]} ELSE {Fallback(to)}
-                  IN  IF term1 # <<>> THEN {One(term1[1], to)} ELSE {One(k, to) : k \in keys}
+    ELSE IF to.termmap = "h" THEN {One("TM", to)}
+    ELSE IF to.tagmap = "h" THEN {MapTags(to)}
+    ELSE LET keys == IF to.keymap = "h" THEN {"KM"} \cup Range(to.key)
+                     ELSE IF to.key # <<>> THEN {to.key[1]} ELSE {Fallback(to)}
+         IN  IF to.term # <<>> THEN {One(to.term[1], to)} ELSE {One(k, to) : k \in keys}
 \* Reading P: the property's summary as a priority list
 \* (function, term / tag / key mappings, explicit term or key, fallback key).
 SumTags(to) ==
